@@ -144,6 +144,9 @@ func printResult(res *fnResult, verbose bool) {
 	if res.attachErr != "" {
 		fmt.Printf("%s: contract does not attach: %s\n", res.key, res.attachErr)
 	}
+	for _, d := range res.dropped {
+		fmt.Printf("%s: loop invariant dropped (does not attach): %s\n", res.key, d)
+	}
 	n, ok := len(res.obligs), 0
 	var t float64
 	for _, o := range res.obligs {
